@@ -443,6 +443,52 @@ def mutated_containers(ck, tier):
     clean()
 
 
+def interleaved_repeats(ck, tier):
+    """calling again with the same arguments returns the same result also when another call of the same module came in between:
+    A, B, A — the two A's agree (whatever B left in the module's caches: matrices corrected or masked in place, keys that cover
+    more than one request)"""
+    import abel
+    from abel import basex, daun, rbasex
+    rng = np.random.default_rng(seed() + 1877)
+    half = rng.random((4, 15))
+    full = rng.random((21, 21))
+    yy, xx = np.indices(full.shape)
+    ring = np.where(np.abs(np.hypot(yy - 10, xx - 10) - 5) < 1.5, 0.0, 1.0)
+    fam = {
+        "daun": (daun.cache_cleanup, [(f"degree={dg}, reg={rg}, {dr}", (lambda dg=dg, rg=rg, dr=dr: daun.daun_transform(half, degree=dg, reg=rg, direction=dr, verbose=False)))
+                                      for dg in (0, 3) for rg, dr in ((None, "inverse"), (("L2", 2.0), "inverse"), (("L2c", 2.0), "inverse"), (("diff", 2.0), "inverse"),
+                                                                     ("nonneg", "inverse"), (None, "forward"))]),
+        "rbasex": (rbasex.cache_cleanup, [(lab, (lambda kw=kw: rbasex.rbasex_transform(full, **kw)[0]))
+                                          for lab, kw in (("inverse", {}), ("forward", dict(direction="forward")), ("L2", dict(reg=("L2", 5.0))),
+                                                          ("masked forward", dict(direction="forward", weights=ring)), ("masked L2", dict(reg=("L2", 5.0), weights=ring)),
+                                                          ("masked pos", dict(reg="pos", weights=ring)), ("masked inverse", dict(weights=ring)),
+                                                          ("masked SVD", dict(reg=("SVD", 0.2), weights=ring)), ("pos", dict(reg="pos")))]),
+        "basex": (basex.cache_cleanup, [(f"sigma={sg}, reg={rg}, corr={co}, {dr}",
+                                         (lambda sg=sg, rg=rg, co=co, dr=dr: basex.basex_transform(half, sigma=sg, reg=rg, correction=co, direction=dr, basis_dir=None, verbose=False)))
+                                        for sg, rg, co, dr in ((1.0, 0.0, True, "inverse"), (1.0, 5.0, True, "inverse"), (1.0, 5.0, False, "inverse"),
+                                                               (2.0, 0.0, True, "inverse"), (1.0, 0.0, True, "forward"))]),
+    }
+    for name, (cleanup, calls) in fam.items():
+        for ia, (la, A) in enumerate(calls):
+            for ib, (lb, B) in enumerate(calls):
+                if ia == ib:
+                    continue
+                ck.count(("S.interleaved", name, ia, ib), suite="S.runtime")
+                try:
+                    cleanup()
+                    first = np.array(quiet(A), float)
+                    quiet(B)
+                    again = np.array(quiet(A), float)
+                except Exception as e:
+                    ck.violation(dict(site=name, clause="interleaved-repeat-exception"), dict(module=name, call=la, between=lb), f"{type(e).__name__}: {e}")
+                    continue
+                if first.shape != again.shape or not np.allclose(first, again, rtol=0, atol=1e-11 * max(1.0, float(np.nanmax(np.abs(first)))), equal_nan=True):
+                    ck.violation(dict(site=name, clause="interleaved-repeat"), dict(module=name, call=la, between=lb),
+                                 f"{name}: [{la}] gives another result after a call with [{lb}] in between (differs by "
+                                 f"{np.nanmax(np.abs(first - again)) if first.shape == again.shape else 'shape'})")
+        cleanup()
+
+
 def disk_sessions(ck, tier):
     """calling again with the same arguments returns the same bits — also when other methods' calls come in between and the basis
     directory on disk is in use: each call of an interleaved session is compared with its first occurrence"""
@@ -521,6 +567,7 @@ def run(tier):
     runtime(ck, tier, deep or bool(ck.broken))
     disk_sessions(ck, tier)
     mutated_containers(ck, tier)
+    interleaved_repeats(ck, tier)
     return ck.finish()
 
 
